@@ -115,6 +115,10 @@ class Gen(object):
     def __init__(self, tape, max_stmts=12, max_depth=3, calls=None, params=None, self_cls=None, allow_return=True,
                  ret_ty='any'):
         self.ret_ty = ret_ty          # 'any' (C04 top-level), None (void callable: bare returns) or an OAL type
+        self.enums = None             # (type name, [enumerators]) -> integer-valued Color::Red operands
+        self.consts = None            # [(group, name, oal type)] -> Group::NAME operands (prebuild) or plain NAME (interpreter)
+        self.const_style = 'plain'
+        self.arrays = False           # array element assignments / reads (prebuild checks only)
         self.t = tape
         self.max_stmts = max_stmts
         self.max_depth = max_depth
@@ -186,8 +190,23 @@ class Gen(object):
         if depth <= 0:
             k = k % 4
         if k == 0:
+            if ty == 'int' and self.enums and t.pick(3) == 0:
+                self.features.add('enumerator')
+                return N('EnumOrNamedConstantNode', namespace=self.enums[0], name=t.choice(self.enums[1]))
+            if self.consts and t.pick(3) == 0:
+                cs = [c for c in self.consts if c[2] == ty]
+                if cs:
+                    c = t.choice(cs)
+                    self.features.add('constant')
+                    if self.const_style == 'namespaced':
+                        return N('EnumOrNamedConstantNode', namespace=c[0], name=c[1])
+                    return self.var(c[1])
             return self.lit(ty)
         if k == 1:
+            arrs = env.vars(lambda i: i['ty'] == 'arr' and i['el'] == ty) if self.arrays else []
+            if arrs and t.flag():
+                a = t.choice(arrs)
+                return N('IndexAccessNode', handle=self.var(a), expression=N('IntegerNode', value=str(t.pick(env.get(a)['n']))))
             vs = env.vars(lambda i: i['ty'] == ty)
             if vs:
                 return self.var(t.choice(vs))
@@ -299,6 +318,21 @@ class Gen(object):
         k = t.pick(24)
         if in_loop and k in (0, 23):
             k = 19
+        if k == 2 and self.arrays:
+            # array element assignment: the first one declares the array (dimension from the constant index)
+            ty = t.choice(['int', 'str', 'bool'])
+            arrs = env.vars(lambda i: i['ty'] == 'arr' and i['el'] == ty)
+            rhs = self.expr(env, ty, 1)            # before the array is declared: it cannot read itself
+            if arrs and t.flag():
+                name = t.choice(arrs)
+                idx = t.pick(env.get(name)['n'])
+            else:
+                name = env.fresh('arr')
+                idx = t.pick(3)
+                env.set(name, {'ty': 'arr', 'el': ty, 'n': idx + 1})
+            self.features.add('array')
+            return [N('AssignmentNode', variable_access=N('IndexAccessNode', handle=self.var(name), expression=N('IntegerNode', value=str(idx))),
+                      expression=rhs)]
         if k <= 2:
             return self.assign_scalar(env)
         if k == 3:
